@@ -1,6 +1,7 @@
 package props
 
 import (
+	"encoding/binary"
 	"fmt"
 	"reflect"
 	"strings"
@@ -319,6 +320,9 @@ type genSpec struct {
 	Desc    string
 	WithRef bool // add a record with an explicit timestamp before (activity only) - not used for common slots
 	Stale   bool // the File's output fields (Header.CRC, Header.DataSize, CRC) hold stale non-zero values, as after a Decode
+	// AfterFailed n>0: two Encode calls that fail are made first (a string that is not UTF-8 in the last message;
+	// a writer fault on the n-th write)
+	AfterFailed int
 }
 
 type genFieldSet struct {
@@ -339,6 +343,10 @@ func (g genSpec) build() (*fit.File, []reflect.Value, error) {
 	f.FileId = fid.Interface().(fit.FileIdMsg)
 	if g.Stale {
 		f.Header.CRC, f.Header.DataSize, f.CRC = 0xBEEF, 0x01020304, 0x5A5A
+	}
+	if g.AfterFailed > 0 {
+		safeEncode(failingFile(), g.AfterFailed%2 == 0)
+		guard(func() { fit.Encode(&failWriter{failAt: g.AfterFailed}, apiFile(1), binary.LittleEndian) })
 	}
 	p := prof()
 	var msgs []reflect.Value
